@@ -141,10 +141,20 @@ func goSliceEnumerate(obj *object, all bool, each func(string) bool) {
 
 func goSliceDefineOwnProperty(obj *object, name string, descriptor property, throw bool) bool {
 	if name == propertyLength {
-		obj.value.(*goSliceObject).setLength(obj.runtime, descriptor.value.(Value))
+		value, isData := descriptor.value.(Value)
+		if !isData {
+			// An accessor (or value-less) descriptor cannot describe the length of a Go slice.
+			return obj.runtime.typeErrorResult(throw)
+		}
+		obj.value.(*goSliceObject).setLength(obj.runtime, value)
 		return true
 	} else if index := stringToArrayIndex(name); index >= 0 {
-		if obj.value.(*goSliceObject).setValue(obj.runtime, index, descriptor.value.(Value)) {
+		value, isData := descriptor.value.(Value)
+		if !isData {
+			// Elements of a Go slice are plain values: no accessors, nothing to define without a value.
+			return obj.runtime.typeErrorResult(throw)
+		}
+		if obj.value.(*goSliceObject).setValue(obj.runtime, index, value) {
 			return true
 		}
 		return obj.runtime.typeErrorResult(throw)
